@@ -765,8 +765,8 @@ func (a csrAxes) String() string {
 	return fmt.Sprintf("subj=%s/san=%s/extra=%d/attrs=%d", nameShapeNames[a.subj], sanShapeNames[a.san], a.ext, a.attr)
 }
 
-func checkCSR(t *engine.T, a csrAxes, k *keyPair, ai algInfo, explicit bool) ([]byte, *signedObj, *smx509.CertificateRequest) {
-	ctx := fmt.Sprintf("csr key=%s alg=%s %s", k.name, algName(ai), a)
+// buildCSRTemplate builds the request template of the axes and the extensions the parsed request must carry.
+func buildCSRTemplate(a csrAxes) (*x509.CertificateRequest, []pkix.Extension) {
 	tpl := &x509.CertificateRequest{Subject: nameShape(a.subj, "Requester")}
 	s := sanShape(a.san)
 	tpl.DNSNames, tpl.EmailAddresses, tpl.IPAddresses, tpl.URIs = s.dns, s.email, s.ips, s.uris
@@ -785,6 +785,13 @@ func checkCSR(t *engine.T, a csrAxes, k *keyPair, ai algInfo, explicit bool) ([]
 		}}
 		wantExts = append(wantExts, pkix.Extension{Id: oidCustom4, Value: []byte{4, 1, 7}})
 	}
+	return tpl, wantExts
+}
+
+func checkCSR(t *engine.T, a csrAxes, k *keyPair, ai algInfo, explicit bool) ([]byte, *signedObj, *smx509.CertificateRequest) {
+	ctx := fmt.Sprintf("csr key=%s alg=%s %s", k.name, algName(ai), a)
+	tpl, wantExts := buildCSRTemplate(a)
+	s := sanShape(a.san)
 	if explicit {
 		tpl.SignatureAlgorithm = ai.alg
 	}
@@ -971,12 +978,9 @@ type wantEntry struct {
 	extra  *pkix.Extension
 }
 
-func checkCRL(t *engine.T, a crlAxes, env *issuerEnv, ai algInfo, explicit bool) ([]byte, *signedObj) {
-	ctx := fmt.Sprintf("crl issuer=%s alg=%s %s", kindName[env.kind], algName(ai), a)
+// buildCRLTemplate builds the revocation list template of the axes and the entries the parsed list must carry.
+func buildCRLTemplate(a crlAxes) (*x509.RevocationList, []wantEntry) {
 	tpl := &x509.RevocationList{}
-	if explicit {
-		tpl.SignatureAlgorithm = ai.alg
-	}
 	switch a.num {
 	case 0:
 		tpl.Number = big.NewInt(1)
@@ -1025,6 +1029,15 @@ func checkCRL(t *engine.T, a crlAxes, env *issuerEnv, ai algInfo, explicit bool)
 	}
 	if a.extra == 1 {
 		tpl.ExtraExtensions = []pkix.Extension{{Id: oidCustom2, Value: []byte{4, 3, 1, 2, 3}}}
+	}
+	return tpl, want
+}
+
+func checkCRL(t *engine.T, a crlAxes, env *issuerEnv, ai algInfo, explicit bool) ([]byte, *signedObj) {
+	ctx := fmt.Sprintf("crl issuer=%s alg=%s %s", kindName[env.kind], algName(ai), a)
+	tpl, want := buildCRLTemplate(a)
+	if explicit {
+		tpl.SignatureAlgorithm = ai.alg
 	}
 	var der []byte
 	var err error
